@@ -54,6 +54,13 @@ def template(t):
         p.add_propagator(([0, 1], pp.ALG_LEXICOGRAPHIC_LEQ, []))
         p.add_propagator(([1, 2, 3], pp.ALG_MAX_EQ, []))
         return p
+    if t == 4:   # a SIBLING of template 3: the same algorithms, arities and domains, other parameters (signs, constants) -
+        p = Problem([(0, 2), (-1, 2), (0, 3)], [0, 1, 2, 0], [0, 0, 0, 1])   # anything cached per "shape" shows here
+        p.add_propagator(([0, 1, 2], pp.ALG_ALLDIFFERENT, []))
+        p.add_propagator(([3, 2], pp.ALG_AFFINE_LEQ, [-1, 1, 0]))
+        p.add_propagator(([1, 0], pp.ALG_LEXICOGRAPHIC_LEQ, []))
+        p.add_propagator(([1, 2, 3], pp.ALG_MAX_EQ, []))
+        return p
     raise ValueError(t)
 
 
